@@ -23,7 +23,12 @@ func (r *yieldRewriter) ignoreKeyVal(k, v ast.Expr) (bool, bool) {
 }
 
 func (r *yieldRewriter) rewriteRanges(block *ast.BlockStmt) {
-	astutil.Apply(block, nil, func(c *astutil.Cursor) bool {
+	astutil.Apply(block, func(c *astutil.Cursor) bool {
+		// range stmt in nested func lit is left native, no yield in there,
+		// (nested yield func lit has been rewritten already),
+		// hoisting the iterator would break labeled range and goto over range
+		return !instanceof[*ast.FuncLit](c.Node())
+	}, func(c *astutil.Cursor) bool {
 		switch n := c.Node().(type) {
 		case *ast.RangeStmt:
 			do := func(ctor string, arg ast.Expr) {
